@@ -93,6 +93,7 @@ CALLS = {
  "DeleteSheet": ("delete_sheet", "base/src/new_empty.rs", ["u32"], ["sheet_index"]),
  "InsertSheet": ("insert_sheet", "base/src/new_empty.rs", ["Seq<char>","u32","Option<u32>"], ["sheet_name@","sheet_index","sheet_id"]),
 }
+EVAL = {"SetArrayValue", "InsertRows", "InsertColumns", "DeleteRows", "DeleteColumns", "MoveColumns", "MoveRows"}
 GHOST_CALLS = ["SelectSheet(u32)"]
 
 out = []
@@ -152,17 +153,19 @@ for d in VARS:
     for kind, fn in (("redo", "apply_diff_list"), ("undo", "apply_undo_diff_list")):
         if kind == "undo" and not d["undo"]:
             continue
-        w(f"pub fn {kind}_arm_{v}(&mut self, {params}) -> (r: Result<(), String>)")
+        w(f"pub fn {kind}_arm_{v}(&mut self, {params}) -> (r: Result<bool, String>)")
         if req:
             w(req.rstrip("\n"))
         w(f"    ensures r.is_ok() ==> final(self).model.log() == old(self).model.log() + {kind}_{v}({names}),")
         w(f"            final(self).history == old(self).history, final(self).send_queue == old(self).send_queue,")
+        if v in EVAL:
+            w(f"            r matches Ok(needs_evaluation) ==> needs_evaluation,   // contents or structure changed: the workbook is re-evaluated afterwards")
         w("{")
         w("    #[allow(unused_assignments, unused_variables, unused_mut)] let mut needs_evaluation = false;")
         w(f"//@arm base/src/user_model/undo_redo.rs UserModel::{fn} `Diff::{v} {{`")
         w("//@end")
         w("    ;")
-        w("    Ok(())")
+        w("    Ok(needs_evaluation)")
         w("}")
 w(open("/verif/tools/arms_extra.rs").read())
 w("}")
